@@ -69,6 +69,8 @@ structure WInvX (x : Option Nat) (w : World) : Prop where
   /-- the Deferred of the handshake a protocol object still refers to has not fired -/
   connReqLive : ∀ p pr cr c, w.protos.get? p = some pr → pr.connReq = some cr → w.connReqs.get? cr = some c →
       c.proto = p ∧ ∀ d, c.dfd = some d → d ∉ w.fired
+  /-- a protocol object refers only to handshake records that have been allocated -/
+  connReqRef : ∀ p pr cr, w.protos.get? p = some pr → pr.connReq = some cr → cr < w.nextCR
   /-- SUBSCRIBE/UNSUBSCRIBE requests exist only with a running retry timer (they never survive a connection) -/
   subArmed : ∀ e ∈ w.ents, (e.box = .sub ∨ e.box = .unsub) → (w.req e.rid).alarm = none →
       ∃ p pr, x = some p ∧ w.protos.get? p = some pr ∧ pr.addr = e.addr
